@@ -31,6 +31,9 @@ type fault struct {
 	// Ban: the offence is provable and the syncer is expected to report the
 	// peer (class of the expected ban reason).
 	Ban string
+	// NoBan: the behaviour is legal (e.g. announcing a side-chain header with
+	// enough work): the peer must NOT be reported
+	NoBan bool
 	// ByzView: which chain the Byzantine peer pretends to hold: "honest" (the
 	// honest heavier chain) or "invalid" (own chain with an invalid block)
 	View string
@@ -83,6 +86,16 @@ var c11Faults = []fault{
 	{Target: "SendCheckpoint", Name: "state-of-other-block", Regime: "above"},
 	{Target: "SendCheckpoint", Name: "state-tweaked", Regime: "above"},
 	{Target: "SendCheckpoint", Name: "block-other-body", Regime: "above"},
+	// the genuine checkpoint block with its id intact (the id covers the header
+	// only) but the body changed
+	{Target: "SendCheckpoint", Name: "payouts-stripped", Regime: "above"},
+	{Target: "SendCheckpoint", Name: "payouts-duplicated", Regime: "above"},
+	{Target: "SendCheckpoint", Name: "payout-value-changed", Regime: "above"},
+	{Target: "SendCheckpoint", Name: "payout-address-changed", Regime: "above"},
+	{Target: "SendCheckpoint", Name: "transactions-stripped", Regime: "above"},
+	{Target: "SendCheckpoint", Name: "transactions-duplicated", Regime: "above"},
+	{Target: "SendCheckpoint", Name: "transactions-reordered", Regime: "above"},
+	{Target: "SendCheckpoint", Name: "v2-height-changed", Regime: "above"},
 	// a chain that is valid relative to a made-up parent state of the victim's own tip
 	{Target: "SendCheckpoint", Name: "made-up-state-chain", Regime: "above", View: "madeup"},
 	// ---- victim-issued SendTransactions (after an outline with missing transactions)
@@ -95,6 +108,14 @@ var c11Faults = []fault{
 	{Target: "SendTransactions", Name: "honest-control", Regime: "v2"},
 	// ---- victim-served relays
 	{Target: "RelayV2Header", Name: "insufficient-work", Regime: "v2", Ban: "header-insufficient-work"},
+	// a header without sufficient work is provable whatever known parent it names
+	{Target: "RelayV2Header", Name: "insufficient-work-on-tip-parent", Regime: "v2", Ban: "header-insufficient-work"},
+	{Target: "RelayV2Header", Name: "insufficient-work-on-grandparent", Regime: "v2", Ban: "header-insufficient-work"},
+	{Target: "RelayV2Header", Name: "insufficient-work-on-side-branch", Regime: "v2", Ban: "header-insufficient-work"},
+	{Target: "RelayV2Header", Name: "insufficient-work-on-genesis", Regime: "v2", Ban: "header-insufficient-work"},
+	// the same announcements with sufficient work are legal (resync only)
+	{Target: "RelayV2Header", Name: "sufficient-work-on-tip-parent", Regime: "v2", NoBan: true},
+	{Target: "RelayV2Header", Name: "sufficient-work-on-side-branch", Regime: "v2", NoBan: true},
 	{Target: "RelayV2Header", Name: "unknown-parent", Regime: "v2"},
 	{Target: "RelayV2Header", Name: "valid-no-follow-up", Regime: "v2"},
 	{Target: "RelayV2Header", Name: "malformed", Regime: "v2"},
@@ -348,6 +369,8 @@ type scene struct {
 	action func(b *p2plab.Byz) error
 	// delivered reports whether the fault reached the victim
 	delivered func(b *p2plab.Byz) bool
+	// side: a lighter branch the victim validated and stored before its own
+	side *chainlab.Node
 	// watch: block ids whose reads the victim's manager proxy records
 	watch []types.BlockID
 	// processed reports (hit-and-run runs) whether the victim demonstrably
@@ -411,6 +434,9 @@ func buildScene(r *mon.Run, cc *c11Case) *scene {
 	// as work (difficulty 1); a harder initial target (set before the genesis
 	// state is derived) makes "insufficient work" constructible in every regime
 	cc.InitialTarget = []byte{0x08, 0x10, 0x20, 0xFF}[rng.IntN(4)]
+	if strings.Contains(f.Name, "insufficient-work") && cc.InitialTarget == 0xFF {
+		cc.InitialTarget = 0x10 // with the easiest target every id has enough work
+	}
 	env.Net.InitialTarget = types.BlockID{cc.InitialTarget}
 	t := chainlab.NewTree(env, rng)
 	sc.t = t
@@ -639,6 +665,56 @@ func buildRelayFault(sc *scene, prof chainlab.Profile) {
 		badID := bh.ID()
 		sc.watch = append(sc.watch, badID)
 		// the handler looked the bad header's id up: the whole message was read
+		sc.processed = func(v *p2plab.Node, b *p2plab.Byz, since int64) bool {
+			return v.ACM.HandlerReads("State", badID, since) > 0
+		}
+	case "RelayV2Header/insufficient-work-on-tip-parent", "RelayV2Header/insufficient-work-on-grandparent", "RelayV2Header/insufficient-work-on-side-branch", "RelayV2Header/insufficient-work-on-genesis",
+		"RelayV2Header/sufficient-work-on-tip-parent", "RelayV2Header/sufficient-work-on-side-branch":
+		var parent *chainlab.Node
+		switch {
+		case strings.HasSuffix(f.Name, "tip-parent"):
+			parent = sc.vTip.Parent
+		case strings.HasSuffix(f.Name, "grandparent"):
+			if sc.vTip.Parent != nil {
+				parent = sc.vTip.Parent.Parent
+			}
+		case strings.HasSuffix(f.Name, "genesis"):
+			parent = t.Root
+		default:
+			// a block of a lighter branch the victim stored before its own chain
+			if sc.vTip.Height >= 3 {
+				fp := sc.vTip.Ancestor(sc.vTip.Height - 2)
+				side := t.ExtendEmpty(fp, fp.Block.Timestamp.Add(t.Env.Net.BlockInterval*2))
+				if side.ChainValid && sc.vTip.L.State.SufficientlyHeavierThan(side.L.State) {
+					sc.side, parent = side, side
+				}
+			}
+		}
+		if parent == nil {
+			sc.skip = "victim chain too short for the parent choice"
+			return
+		}
+		ps := parent.State()
+		bh := types.BlockHeader{ParentID: parent.ID, Timestamp: parent.Block.Timestamp.Add(t.Env.Net.BlockInterval), Commitment: types.Hash256{0xC1, byte(rng.IntN(256)), byte(rng.IntN(256)), 0x11}}
+		if strings.HasPrefix(f.Name, "insufficient") {
+			var ok bool
+			if bh, ok = p2plab.BadWorkHeader(ps, bh); !ok {
+				sc.skip = "no bad-work nonce"
+				return
+			}
+		} else {
+			fct := ps.NonceFactor()
+			for bh.ID().CmpWork(ps.PoWTarget()) < 0 {
+				bh.Nonce += fct
+			}
+		}
+		if consensus.ValidateHeader(ps, bh) == nil != strings.HasPrefix(f.Name, "sufficient") {
+			sc.skip = "header not labelled as intended"
+			return
+		}
+		sc.action = func(b *p2plab.Byz) error { return call(b, &gateway.RPCRelayV2Header{Header: bh}) }
+		badID := bh.ID()
+		sc.watch = append(sc.watch, badID)
 		sc.processed = func(v *p2plab.Node, b *p2plab.Byz, since int64) bool {
 			return v.ACM.HandlerReads("State", badID, since) > 0
 		}
@@ -1081,6 +1157,55 @@ func installHooks(sc *scene, b *p2plab.Byz) {
 				blk.MinerPayouts = append(append([]types.SiacoinOutput(nil), blk.MinerPayouts...), types.SiacoinOutput{Address: t.Env.A(chainlab.Bob).Addr, Value: types.Siacoins(1)})
 				r.Block = blk
 				return p2plab.Reply{Obj: r, Faulted: true}
+			case "payouts-stripped", "payouts-duplicated", "payout-value-changed", "payout-address-changed", "transactions-stripped", "transactions-duplicated", "transactions-reordered", "v2-height-changed":
+				// the genuine block, id untouched, body changed
+				blk := r.Block
+				id := blk.ID()
+				blk.MinerPayouts = append([]types.SiacoinOutput(nil), blk.MinerPayouts...)
+				if blk.V2 != nil {
+					v2 := *blk.V2
+					v2.Transactions = append([]types.V2Transaction(nil), blk.V2.Transactions...)
+					blk.V2 = &v2
+				}
+				changed := false
+				switch f.Name {
+				case "payouts-stripped":
+					blk.MinerPayouts, changed = nil, true
+				case "payouts-duplicated":
+					blk.MinerPayouts, changed = append(blk.MinerPayouts, blk.MinerPayouts...), true
+				case "payout-value-changed":
+					blk.MinerPayouts[0].Value, changed = blk.MinerPayouts[0].Value.Add(types.Siacoins(1000)), true
+				case "payout-address-changed":
+					blk.MinerPayouts[0].Address[3] ^= 0x40
+					changed = true
+				case "transactions-stripped":
+					if blk.V2 != nil && len(blk.V2.Transactions) > 0 {
+						blk.V2.Transactions, changed = nil, true
+					}
+				case "transactions-duplicated":
+					if blk.V2 != nil && len(blk.V2.Transactions) > 0 {
+						blk.V2.Transactions, changed = append(blk.V2.Transactions, blk.V2.Transactions[0]), true
+					}
+				case "transactions-reordered":
+					if blk.V2 != nil && len(blk.V2.Transactions) > 1 {
+						k := len(blk.V2.Transactions) - 1
+						blk.V2.Transactions[0], blk.V2.Transactions[k] = blk.V2.Transactions[k], blk.V2.Transactions[0]
+						changed = true
+					}
+				case "v2-height-changed":
+					if blk.V2 != nil {
+						blk.V2.Height += 7
+						changed = true
+					}
+				}
+				if !changed || blk.ID() != id {
+					return p2plab.Reply{Obj: r}
+				}
+				// logged before the write: a crash in a worker or RetrieveCheckpoint
+				// goroutine (no recover there) can then be attributed to this row
+				fmt.Printf("note: C11 stream=%d answering SendCheckpoint with the genuine block, %s (id unchanged)\n", sc.cc.Stream, f.Name)
+				r.Block = blk
+				return p2plab.Reply{Obj: r, Faulted: true}
 			case "state-of-other-block":
 				r.State = nd.State()
 				return p2plab.Reply{Obj: r, Faulted: true}
@@ -1204,6 +1329,9 @@ func runByzCaseResult(r *mon.Run, cc c11Case) (res byzResult) {
 			Name:     name, IP: p2plab.HonestIP(slot, i), Tree: t, Tip: tip,
 			SyncInterval: time.Duration(50+rng.IntN(50)) * time.Millisecond, DiscoveryInterval: time.Duration(50+rng.IntN(50)) * time.Millisecond,
 			RPCTimeout: 2 * time.Second,
+		}
+		if name == "victim" && sc.side != nil {
+			o.PreTips = []*chainlab.Node{sc.side}
 		}
 		if cc.Pair && name == "victim" {
 			// both twins: reads of the watched ids are recorded, the log tail is kept,
@@ -1615,6 +1743,14 @@ func runByzCaseResult(r *mon.Run, cc c11Case) (res byzResult) {
 	}
 	if cc.HangUp {
 		r.Count("hit_and_run_hang_ups_performed", b1.Counter("hangups"))
+	}
+	if f.NoBan && delivered {
+		if len(byzBans) == 0 {
+			r.Count("legal_announcements_not_banned:"+key, 1)
+		} else {
+			fmt.Printf("note: C11 stream=%d unjustified-ban %s %s bans=%v\n", cc.Stream, key, cc.Regime, byzBans)
+			r.Violation("unjustified-ban:"+key+":"+cc.Regime, "a peer that only announced a header with sufficient work on a known parent that is not the tip (legal: resync) was reported to the peer store", cc, detail())
+		}
 	}
 	if expectBan && delivered && !cc.HangUp {
 		if len(byzBans) > 0 {
